@@ -5,6 +5,37 @@ From SC Require Import Base.Res Base.PyList Inst.Heap Inst.ClassTable Inst.Model
 Import ListNotations.
 Open Scope nat_scope.
 
+(* deepcopy of a flat instance succeeds when no __post_copy__ hook can interfere *)
+Lemma deepcopy_flat_ok ct l s c d k :
+  nth_error (heap s) l = Some (OInst c d) -> lookup_cls ct c = Some k -> c_dnc k = false ->
+  flat_fields (heap s) d -> c_post_copy k = None ->
+  exists r s', deepcopy ct (VRef l) s = (Ok r, s').
+Proof.
+  intros Hl Hc Hdnc Hflat Hpc. rewrite deepcopy_unfold.
+  assert (E : exists r0 s', dc ct (S (S (S 61))) (VRef l) [] s = (Ok r0, s')).
+  { rewrite (dc_inst_unfold ct 61 l (@nil (loc * loc)) s c d k eq_refl Hl Hc Hdnc).
+    rewrite (bind_ok _ _ _ _ _ (alloc_run (OInst c []) s)).
+    set (new := length (heap s)).
+    assert (Hfr0 : framed_from (heap s) (push s (OInst c []))).
+    { split; simpl; [rewrite app_length; lia|]. intros i Hi. now apply nth_error_app1. }
+    assert (Hcell0 : nth_error (heap (push s (OInst c []))) new = Some (OInst c [])).
+    { simpl. unfold new. now rewrite nth_error_app2, Nat.sub_diag by lia. }
+    assert (Hm0 : memo_ok (heap s) new [] (push s (OInst c []))) by (intros lx lx' E; discriminate).
+    destruct (field_loop ct (heap s) new c k 61 (le_n _) d [] [] _ Hfr0 Hcell0 Hm0 Hflat)
+      as [m' [s1 [Eloop _]]].
+    rewrite (bind_ok _ _ _ _ _ Eloop). rewrite Hpc. rewrite bind_ret. unfold ret. eauto. }
+  destruct E as [r0 [s' E]]. rewrite (bind_ok _ _ _ _ _ E). unfold ret. eauto.
+Qed.
+
+Lemma conforms_scalar_any_table ct1 ct2 v : nonref v = true ->
+  forall t, conforms ct1 t (abs0 v) = conforms ct2 t (abs0 v).
+Proof.
+  intros Hv t. induction t; simpl; auto;
+    try (destruct v; simpl in *; try discriminate; reflexivity).
+  - destruct v; simpl in *; try discriminate; auto.
+  - now rewrite IHt1, IHt2.
+Qed.
+
 (* ------------------------------------------------------------------ *)
 (** * mutate_attr(obj, a, v, inplace=False) on a flat instance: a fresh copy holding v *)
 
@@ -204,6 +235,61 @@ Section WithScalarCopy.
     rewrite absv_unfold, Habs, Hh1. reflexivity.
   Qed.
 
+  (* the call succeeds whenever the specification says so (no __post_copy__ hook declared) *)
+  Theorem with_scalar_copy_total v x :
+    vscalar v = true ->
+    match a_prepare sp with Some f => scalar_fn f = true | None => True end ->
+    c_post_copy k = None ->
+    spec_helper ct h0 (absv (heap s) (VRef l)) (SWith a)
+                (mkah [abs0 v] false true AMissing false None None [] None) = SOk x ->
+    exists r s', run_helper ct l (HWith a) (mkh [v] false true VMissing false None None [] None) s = (Ok r, s').
+  Proof.
+    intros Hv Hp Hpc Hspec. rewrite (spec_with_copy_scalar v Hv Hp) in Hspec.
+    unfold run_helper. cbn [h_if negb pos0 h_pos nth h_kw h_inplace].
+    assert (Hsf : spec_for ct l a s = (Ok (k, sp), s)).
+    { unfold spec_for. rewrite (bind_ok _ _ _ _ _ (read_inst_at l s c d Hl)). cbn [fst].
+      rewrite (bind_ok _ _ _ _ _ (cls_of_at ct c s k Hc)). now rewrite Ha. }
+    rewrite (bind_ok _ _ _ _ _ Hsf). cbn [snd]. unfold with_attr.
+    assert (Hname : a_name sp = a).
+    { unfold lookup_attr in Ha. apply find_some in Ha. destruct Ha as [_ E]. now apply Nat.eqb_eq in E. }
+    rewrite Hname.
+    (* the prepared value exists *)
+    assert (Hprep : exists v' s1, prepare_attr_value ct (exec ct XFUEL) sp l v None s = (Ok v', s1) /\
+                                  heap s1 = heap s /\ vscalar v' = true /\
+                                  (match a_prepare sp with Some f => afn f (abs0 v) | None => SOk (abs0 v) end) = SOk (abs0 v')).
+    { unfold prepare_attr_value. rewrite Hnc, XFUEL_S.
+      destruct (a_prepare sp) as [f|].
+      - pose proof (mutate_value_scalar_prep ct (exec ct 39) VMissing v false f (ctor_of_ty (a_ty sp)) (a_ty sp) false s Hfa Hp Hv) as Hm.
+        destruct (afn f (abs0 v)) as [pv|e| |]; try contradiction; [|discriminate Hspec].
+        destruct Hm as [w [Hm [-> Hw]]]. exists w, (ticked s). split; [|repeat split; auto].
+        destruct v; cbn [vscalar] in Hv; try discriminate; rewrite exec_S; cbn [body]; rewrite (bind_ok _ _ _ _ _ Hm); reflexivity.
+      - exists v, s. split; [|repeat split; auto].
+        destruct v; cbn [vscalar] in Hv; try discriminate; rewrite exec_S; cbn [body];
+          (erewrite bind_ok; [reflexivity|apply mutate_value_scalar; reflexivity]). }
+    destruct Hprep as [v' [s1 [Hpv [Hh1 [Hv' Hafn]]]]].
+    rewrite (bind_ok _ _ _ _ _ Hpv).
+    rewrite Hafn in Hspec. cbn [sbind] in Hspec.
+    assert (Hconf : conforms ct (a_ty sp) (abs0 v') = true).
+    { unfold store in Hspec.
+      assert (a_is_sentinel (abs0 v') = false) as Hsent
+        by (destruct v'; cbn [vscalar] in Hv'; try discriminate; reflexivity).
+      rewrite Hsent in Hspec. destruct (conforms ct (a_ty sp) (abs0 v')); [reflexivity|discriminate Hspec]. }
+    assert (Hl1 : nth_error (heap s1) l = Some (OInst c d)) by (now rewrite Hh1).
+    assert (Hflat1 : flat_fields (heap s1) d) by (now rewrite Hh1).
+    rewrite (mutate_attr_copy_unfold ct (exec ct XFUEL) l a v' s1 c d k sp Hl1 Hc Ha Hdnc Hv' Hty), Hconf.
+    destruct (deepcopy_flat_ok ct l s1 c d k Hl1 Hc Hdnc Hflat1 Hpc) as [r0 [s2 Hdc]].
+    rewrite (bind_ok _ _ _ _ _ Hdc).
+    destruct (deepcopy_flat_abs ct l s1 c d k r0 s2 0 Hl1 Hc Hdnc Hflat1 Hdc)
+      as [l' [d' [-> [_ [Hcell' [Hkeys _]]]]]].
+    cbn [loc_of]. rewrite bind_ret.
+    assert (Hinit' : assoc A_INITIALIZING d' = None).
+    { pose proof (proj1 (assoc_none_notin A_INITIALIZING d) Hinit) as Hn.
+      apply assoc_none_notin. intro Hin. apply Hn.
+      exact (eq_ind _ (fun l0 => In A_INITIALIZING l0) Hin _ Hkeys). }
+    rewrite (bind_ok _ _ _ _ _ (thawed_store_run ct (exec ct XFUEL) l' a v' s2 c d' k Hcell' Hc Hni Hinit')).
+    unfold ret. eauto.
+  Qed.
+
   (* the result in closed form: determined by the attribute declaration, the
      receiver's abstraction and the argument only (no class table, no frozen flag) *)
   Corollary with_scalar_copy_result v r s' :
@@ -261,3 +347,115 @@ Proof.
     as [l2 [pv2 [-> [E2 A2]]]].
   rewrite E1 in E2. inversion E2; subst pv2. now rewrite A1, A2.
 Qed.
+
+(* ... and only ONE of the two runs has to be known to succeed: if the call
+   succeeds on table 2 (say, the twin without frozen=True) it succeeds on table 1
+   (the frozen one: no FrozenInstanceError) with an abstractly equal result *)
+Theorem with_scalar_copy_twin_total ct1 ct2 l a c d k1 k2 sp s v r2 s2' :
+  nth_error (heap s) l = Some (OInst c d) ->
+  lookup_cls ct1 c = Some k1 -> lookup_cls ct2 c = Some k2 ->
+  lookup_attr k1 a = Some sp -> lookup_attr k2 a = Some sp ->
+  NoDup (map fst d) -> flat_fields (heap s) d ->
+  c_dnc k1 = false -> c_dnc k2 = false -> no_inval k1 -> no_inval k2 -> c_post_copy k1 = None ->
+  fail_at s = None -> ty_depth (a_ty sp) < FUEL -> ty_is_collection (a_ty sp) = false ->
+  assoc A_INITIALIZING d = None -> a <> A_INITIALIZING ->
+  vscalar v = true ->
+  match a_prepare sp with Some f => scalar_fn f = true | None => True end ->
+  run_helper ct2 l (HWith a) (mkh [v] false true VMissing false None None [] None) s = (Ok r2, s2') ->
+  exists r1 s1',
+    run_helper ct1 l (HWith a) (mkh [v] false true VMissing false None None [] None) s = (Ok r1, s1') /\
+    absv (heap s1') r1 = absv (heap s2') r2.
+Proof.
+  intros Hl Hc1 Hc2 Ha1 Ha2 Hd Hflat Hd1 Hd2 Hn1 Hn2 Hpc Hfa Hty Hnc Hinit Ha0 Hv Hp H2.
+  (* table 2: the specification's closed form is SOk *)
+  destruct (with_scalar_copy_refines ct2 [] l a c d k2 sp s Hl Hc2 Ha2 Hd Hflat Hd2 Hn2 Hfa Hty Hnc Hinit Ha0 v r2 s2' Hv Hp H2)
+    as [l2 [dfin2 [E2 [_ [_ [Hspec2 _]]]]]].
+  rewrite (spec_with_copy_scalar ct2 [] l a c d k2 sp s Hl Hc2 Ha2 Hnc v Hv Hp) in Hspec2.
+  (* the same closed form on table 1 *)
+  assert (Hspec1 : exists x, spec_helper ct1 [] (absv (heap s) (VRef l)) (SWith a)
+                               (mkah [abs0 v] false true AMissing false None None [] None) = SOk x).
+  { rewrite (spec_with_copy_scalar ct1 [] l a c d k1 sp s Hl Hc1 Ha1 Hnc v Hv Hp).
+    destruct (match a_prepare sp with Some f => afn f (abs0 v) | None => SOk (abs0 v) end) as [pv|e| |] eqn:E;
+      cbn [sbind] in Hspec2 |- *; try discriminate.
+    assert (Hw : exists w, pv = abs0 w /\ vscalar w = true).
+    { destruct (a_prepare sp) as [f|].
+      - pose proof (apply_fn_scalar f v s Hfa Hp Hv) as Hf. rewrite E in Hf. destruct Hf as [w [_ [-> Hw]]]. eauto.
+      - inversion E; subst. eauto. }
+    destruct Hw as [w [-> Hw]].
+    assert (a_is_sentinel (abs0 w) = false) as Hsent
+      by (destruct w; cbn [vscalar] in Hw; try discriminate; reflexivity).
+    unfold store in Hspec2 |- *. rewrite Hsent in Hspec2 |- *.
+    rewrite (conforms_scalar_any_table ct1 ct2 w (vscalar_nonref w Hw)).
+    destruct (conforms ct2 (a_ty sp) (abs0 w)); cbn [negb] in Hspec2 |- *; [|discriminate].
+    assert (a_name sp = a) as Hname.
+    { unfold lookup_attr in Ha1. apply find_some in Ha1. destruct Ha1 as [_ E0]. now apply Nat.eqb_eq in E0. }
+    rewrite Hname. unfold invalidate, cls_for. rewrite Hc1. cbn [sbind].
+    rewrite invalidatees_none by auto. cbn [sfold]. eauto. }
+  destruct Hspec1 as [x Hspec1].
+  destruct (with_scalar_copy_total ct1 [] l a c d k1 sp s Hl Hc1 Ha1 Hflat Hd1 Hn1 Hfa Hty Hnc Hinit v x Hv Hp Hpc Hspec1)
+    as [r1 [s1' H1]].
+  exists r1, s1'. split; [exact H1|].
+  exact (with_scalar_copy_twin ct1 ct2 l a c d k1 k2 sp s v r1 s1' r2 s2' Hl Hc1 Hc2 Ha1 Ha2 Hd Hflat Hd1 Hd2 Hn1 Hn2
+           Hfa Hty Hnc Hinit Ha0 Hv Hp H1 H2).
+Qed.
+
+(* ------------------------------------------------------------------ *)
+(** * update_<a>(v) with a proper scalar v is with_<a>(v): in the model and in the specification *)
+
+Section UpdateScalar.
+  Variable ct : ctable.
+  Variable h0 : list obj.
+  Variables (l : loc) (a : aid) (c : cid) (d : list (aid * val)) (k : cls) (sp : attr_spec).
+  Variable s : state.
+  Hypothesis Hl : nth_error (heap s) l = Some (OInst c d).
+  Hypothesis Hc : lookup_cls ct c = Some k.
+  Hypothesis Ha : lookup_attr k a = Some sp.
+
+  Lemma update_scalar_model v inp :
+    vscalar v = true ->
+    run_helper ct l (HUpdate a) (mkh [v] inp true VMissing false None None [] None) s =
+    run_helper ct l (HWith a) (mkh [v] inp true VMissing false None None [] None) s.
+  Proof.
+    intro Hv. unfold run_helper. cbn [h_if negb pos0 h_pos nth h_kw h_inplace].
+    assert (Hsf : spec_for ct l a s = (Ok (k, sp), s)).
+    { unfold spec_for. rewrite (bind_ok _ _ _ _ _ (read_inst_at l s c d Hl)). cbn [fst].
+      rewrite (bind_ok _ _ _ _ _ (cls_of_at ct c s k Hc)). now rewrite Ha. }
+    assert (Hcv : exists old, current_value ct l sp inp (is_sentinel v) s = (Ok old, s)).
+    { unfold current_value, getattr_default.
+      rewrite bind_assoc. rewrite (bind_ok _ _ _ _ _ (read_inst_at l s c d Hl)). cbn [fst snd].
+      assert (is_sentinel v = false) as -> by (destruct v; cbn [vscalar] in Hv; try discriminate; reflexivity).
+      cbn [negb]. rewrite !orb_true_r.
+      destruct (assoc (a_name sp) d) as [w|].
+      - rewrite bind_ret. unfold ret. eauto.
+      - rewrite bind_assoc. rewrite (bind_ok _ _ _ _ _ (cls_of_at ct c s k Hc)). rewrite !bind_ret. unfold ret. eauto. }
+    destruct Hcv as [old Hcv].
+    destruct v; cbn [vscalar] in Hv; try discriminate;
+      rewrite !(bind_ok _ _ _ _ _ Hsf); cbn [snd];
+      rewrite (bind_ok _ _ _ _ _ Hcv); rewrite XFUEL_S, exec_S; cbn [body];
+      (erewrite bind_ok; [reflexivity|apply mutate_value_scalar; reflexivity]).
+  Qed.
+
+  Lemma update_scalar_spec v inp :
+    vscalar v = true ->
+    spec_helper ct h0 (absv (heap s) (VRef l)) (SUpdate a) (mkah [abs0 v] inp true AMissing false None None [] None) =
+    spec_helper ct h0 (absv (heap s) (VRef l)) (SWith a) (mkah [abs0 v] inp true AMissing false None None [] None).
+  Proof.
+    intro Hv. rewrite absv_unfold, (abs_inst _ l c d 23 Hl).
+    unfold spec_helper. cbn [ah_if negb].
+    assert (E : spec_unfrozen ct h0 (AInst c (map (fun p => (fst p, abs 23 (heap s) (snd p))) (sorted_fields d)))
+                  (SUpdate a) (mkah [abs0 v] inp true AMissing false None None [] None) =
+                spec_unfrozen ct h0 (AInst c (map (fun p => (fst p, abs 23 (heap s) (snd p))) (sorted_fields d)))
+                  (SWith a) (mkah [abs0 v] inp true AMissing false None None [] None)).
+    { unfold spec_unfrozen, spec_update, attr_of, cls_for. unfold apos0. cbn [ah_pos nth ah_kw].
+      rewrite Hc. cbn [sbind]. rewrite Ha.
+      destruct (read_attr ct h0 _ a) as [cur| | |] eqn:Er;
+        try (unfold read_attr, cls_for in Er; rewrite Hc in Er; cbn [sbind] in Er;
+             destruct (assoc a _); [discriminate|]; destruct (assoc a (c_overrides k)); [discriminate|];
+             rewrite Ha in Er; discriminate).
+      destruct v; cbn [vscalar] in Hv; try discriminate; reflexivity. }
+    unfold mutates_in_place. cbn [ah_inplace ah_if].
+    destruct (inp && true && frozen_class ct c); [|exact E].
+    unfold apos0. cbn [ah_pos nth]. rewrite E.
+    destruct v; cbn [vscalar] in Hv; try discriminate; reflexivity.
+  Qed.
+End UpdateScalar.
